@@ -646,6 +646,11 @@ class C06(RunSpec):
             # local searches sprouted from mid-level demes that have just finished (local-method generator), one problem object per level
             p.update({"n_levels": 3, "leaf": "local", "shared": False, "sprout": "custom", "gscs": ["melimit"], "lscs": ["melimit"],
                       "inner": _cycle(["cma", "sea", "de"], idx // 10), "stacks": False, "nbclocal": True, "hibernation": False})
+        if idx % 10 == 3:
+            # one problem object for all levels, a parent that stops by its own condition while children that consist of a single
+            # individual (the sprout seed) keep running: whatever the child evaluates must be booked on the child, not on its stopped parent
+            p.update({"n_levels": 2, "shared": True, "leaf": _cycle(["sea", "sea_adapt", "sea"], idx // 10), "root": _cycle(["sea", "de", "shade", "cma_never"][:3], idx // 10),
+                      "gscs": ["melimit"], "free_lscs": True, "hibernation": False, "sprout": _cycle(["simple", "nbc"], idx // 10), "one_individual_children": True})
         if idx % 8 == 7:
             # (reuse pair, see reuse_every) stateless-looking stop conditions must stay stateless across trees
             p["lscs"] = ["steady", "steady", "melimit", "children"]
@@ -675,6 +680,11 @@ class C06(RunSpec):
             d["levels"][0]["lsc"] = {"k": "dontstop"}
             d["levels"][1]["lsc"] = {"k": "melimit", "n": rng.randint(1, 3)}
             d["gsc"] = {"k": "melimit", "n": 9}
+        if idx % 10 == 3 and len(d["levels"]) == 2 and d["levels"][1]["engine"] in ("sea", "sea_adapt") and not d.get("reuse") and not d.get("soak"):
+            d["levels"][1].update({"pop": 1, "k_elites": 1, "lsc": {"k": "dontstop"}})
+            d["levels"][1].pop("election_group_size", None)
+            d["levels"][0]["lsc"] = {"k": "melimit", "n": 2 + (idx // 10) % 2}
+            d["gsc"] = {"k": "melimit", "n": 8}
         if idx % 10 == 6 and d.get("kind") == "tree" and not d.get("reuse") and not d.get("soak"):
             d["entry"] = "hand"
             d["hand_steps"] = 4 + (idx // 10) % 5
@@ -696,6 +706,7 @@ class C06(RunSpec):
             ("C06.cause.gsc", 1, "deactivation by GSC"),
             ("C06.cause.engine", 1, "engine self-termination"),
             ("C06.deactivation.CMADeme.engine", 1, "CMA-ES internal stop"),
+            ("C06.stopped_parent_rechecked_while_its_one_individual_child_on_the_same_problem_object_ran", 5, "stopped parent re-checked while a one-individual child sharing its problem object ran"),
             ("C06.stopped_deme_observed_3_later_metaepochs", 1, "stopped deme observed over >=3 later metaepochs"),
             ("hand_driven_metaepochs", 10, "metaepochs driven by hand through run_metaepoch() / run_sprout()"),
             ("C06.hibernating_deme_ahead_of_an_awake_one_in_run_order", 3, "a sleeping deme ahead of an awake one in the run order"),
